@@ -24,7 +24,7 @@ RULE = ('world size R=1..4 x all trajectory length vectors with R<=#traj<=4 and 
         'data arrangements (Golomb-ruler values: all pairwise distances distinct) x {kcenters k in 1..3 and radius stop, hybrid '
         'sweeps 0..2 x seeds, warm-start kmedoids via flat and (traj,frame) center ids, ops: assemble_striped_array/'
         'ragged_array, striped max/mean, randind for every RNG value, distribute_frame for every (owner,index), '
-        'convert_local_indices for every pair, load_h5/npy_as_striped}; arrival orders: default for every configuration, all '
+        'convert_local_indices for every pair (ops also on all-negative and mixed-sign data), load_h5/npy_as_striped}; arrival orders: default for every configuration, all '
         'executions with <=1 (T: <=2) deviations on a reduced set with R<=3; state=(configuration, operation, schedule); '
         'non-trivial = R>=2 with unequal stripes')
 ASSUMPTIONS = ['the simulated communicator stands in for MPI: rendezvous collectives matched by per-rank call index, payload '
@@ -32,7 +32,7 @@ ASSUMPTIONS = ['the simulated communicator stands in for MPI: rendezvous collect
                'serial equivalence is asserted on tie-free data only, as the statement says',
                'ranks owning no trajectory are excluded (load_trajectory_as_striped itself rejects that)',
                'each rank seeds its own RandomState(seed) as separate processes would']
-GUARDS = {'unequal_stripes': 200, 'owner_changes': 200, 'nondefault_order': 100, 'hybrid_checked': 100, 'rank_len1': 100,
+GUARDS = {'all_negative_data': 50, 'unequal_stripes': 200, 'owner_changes': 200, 'nondefault_order': 100, 'hybrid_checked': 100, 'rank_len1': 100,
           'rect_stripe_in_ragged_whole': 20, 'randind_values': 100, 'file_loads': 20, 'warm_kmedoids': 20}
 RULER = [0, 2, 6, 24, 29, 40, 43, 55, 68, 75, 76, 85]
 
@@ -287,6 +287,8 @@ def check_ops(case, ctx, bound):
         return ('ok', freeze(w.ret[0]['ragged']))
 
     key = ('ops', R, tuple(lengths), tuple(vals[:n]))
+    if max(vals[:n]) < 0:
+        ctx.guard('all_negative_data')
     outs = explore_world(R, fn, bound, ctx, key, judge)
     if len(outs) > 1:
         ctx.violation('ops:schedule_dependent', case, '%d distinct outcomes over arrival orders' % len(outs))
@@ -371,6 +373,10 @@ def run_shard(sh, ctx):
                             check_cluster(dict(base, kind='cluster', algo=algo, k=2, iters=1, seed=ctx.seed), ctx, 0)
                 if ai < 2:
                     check_ops(dict(base, kind='ops'), ctx, bound)
+                    # all-negative and mixed-sign data (reductions must not assume non-negative values)
+                    check_ops(dict(base, kind='ops', data=[-v - 1 for v in vals]), ctx, 0)
+                    if ai == 0:
+                        check_ops(dict(base, kind='ops', data=[(v - 30) * (1 if i % 2 else -1) - 0.5 for i, v in enumerate(vals)]), ctx, 0)
             if j % 37 == 0:
                 ctx.sample(dict(base, algo='kcenters|hybrid|kmedoids|ops', deviation_bound=bound))
     else:
